@@ -142,10 +142,10 @@ impl Check for C20 {
         ]
     }
     fn cases(&self, tier: Tier) -> u64 {
-        tier.pick(1_600, 40_000)
+        tier.pick(4_800, 40_000)
     }
     fn min_nontrivial(&self, tier: Tier) -> u64 {
-        tier.pick(1_000, 20_000)
+        tier.pick(3_000, 20_000)
     }
     fn shard_budget(&self, tier: Tier) -> Duration {
         tier.pick(Duration::from_secs(120), Duration::from_secs(1500))
